@@ -240,7 +240,7 @@ func c16(env *Env, rep *Report) {
 			}
 		}
 	}
-	// (c) ordering under schedules: a host that talks as soon as it is connected must not get its data
+	// (d) host writes of 1 / 100 / 4085 / 4086 / 4087 / 8172 / 8173 bytes on both transports: the data packets' announced bytes are at the client when the gateway is idle; (c) ordering under schedules: a host that talks as soon as it is connected must not get its data
 	// to the client ahead of the channel response (the packet answering a request carries the response type)
 	for _, kind := range []string{"ws", "legacy", "closing-ws", "closing-legacy"} {
 		sc := c16OrderScenario(kind)
@@ -252,6 +252,38 @@ func c16(env *Env, rep *Report) {
 			ob++ // the closing scenarios need the host paused between two chunks and the two packet builders overlapped
 		}
 		exploreConc(env, rep, sc, ob, nil, c16OrderCheck(sc))
+	}
+	// (d) data packets to the client: what a packet's header announces is on the wire when the gateway has nothing
+	// left to do (host writes of the relay's read size 4086, one less, one more, twice it; both transports)
+	if env.Shard == 0 || env.NShards == 1 {
+		for _, kind := range []string{"ws", "legacy"} {
+			for _, n := range []int{1, 100, 4085, 4086, 4087, 8172, 8173} {
+				distinct++
+				cfg := c01Cfg(true, false, kind)
+				segs := append(c06Setup(), Seg{HostSay: pattern(n, 7)})
+				res := RunSeq(cfg, segs)
+				rep.add("executions", 1)
+				rep.add("transitions", int64(res.StepsRun))
+				if len(res.Panics) > 0 || !res.Opened || len(res.Steps) != len(segs) {
+					continue
+				}
+				var got []byte
+				bad := ""
+				for _, p := range res.Steps[len(segs)-1].Resps {
+					r := tsgu.ParseResp(p)
+					if !r.WellFormed {
+						bad = r.Why
+					}
+					if p.Type == tsgu.TypeData {
+						got = append(got, r.Payload...)
+					}
+				}
+				rep.outcome(fmt.Sprintf("d host-write %s complete=%v", kind, len(got) == n))
+				if bad != "" || len(got) != n {
+					rep.violate("C16/data-packet-not-on-the-wire-as-announced/"+kind, fmt.Sprintf("the host wrote %d bytes; when the gateway had nothing left to do the client had received data packets carrying %d bytes (%s)", n, len(got), bad), map[string]any{"noreplay": true})
+				}
+			}
+		}
 	}
 	if gwBin() != "" {
 		bindCaps(rep, "C16", env)
